@@ -66,7 +66,8 @@ def contract(file, func, **kw):
     c = Contract(file, func, **kw)
     REG.contracts[c.key] = c
     if not c.opts.get("block"):      # a block contract is never the contract of a callee
-        REG.by_name.setdefault(c.name, []).append(c)
+        REG.by_name.setdefault(c.opts.get("alias") or c.name, []).append(c)      # alias: the name the function is CALLED by
+                                                                                 # (singledispatch registrations are all named `_`)
     return c
 
 
